@@ -106,6 +106,9 @@ class Frame(object):
         if status is None:
             return b''
         payload_bytes = cls._pack_close_code(status) + reason
+        if len(payload_bytes) > 125:
+            # Close is a control frame
+            raise ValueError('close reason should be <= 123 bytes')
         return payload_bytes
 
     def to_bytes(self):
